@@ -914,6 +914,45 @@ func (c *FnCtx) ret(x *ssa.Return) {
 			}
 		}
 	}
+	if c.con != nil && !c.con.Trusted {
+		nAt := 0
+		for _, cl := range c.con.LEnsures {
+			if !clauseActive(cl, c.prop) {
+				continue
+			}
+			parts := c.V.DB.splitConj(cl.E, 0)
+			for pi, pe := range parts {
+				env := c.specEnvFor(c.cur, c.entry, results)
+				ok := true
+				var f string
+				func() {
+					defer func() {
+						if rec := recover(); rec != nil {
+							if strings.Contains(fmt.Sprint(rec), "unknown identifier") {
+								ok = false
+								return
+							}
+							panic(rec)
+						}
+					}()
+					f = env.trGoal(pe)
+				}()
+				if !ok {
+					continue
+				}
+				nAt++
+				c.flushFacts(env)
+				stem := fmt.Sprintf("lensures#%d", cl.Ord)
+				if len(parts) > 1 {
+					stem = fmt.Sprintf("lensures#%d.%d", cl.Ord, pi+1)
+				}
+				ob := c.assert(c.curItems, "ensures", stem, "", f, x, cl.Tags, false)
+				ob.Text = cl.Text
+			}
+		}
+		c.lensuresAt += nAt
+		c.frameCheck(x)
+	}
 	// frame clauses of a callback: proved per invocation (old = entry of the closure)
 	if c.fn.Parent() != nil && c.con != nil {
 		for _, cl := range c.con.Frames {
